@@ -253,8 +253,9 @@ MAX_TICKS = 92233720368547758   # |ticks| * 100 fits an int64
 class ValueGen:
     """builds one value (token list) for a type; style in {'zero','min','max','rand','big'}"""
 
-    def __init__(self, rng, style, maxlen=3, depth_budget=4, keyable_nan=False):
+    def __init__(self, rng, style, maxlen=3, depth_budget=4, keyable_nan=False, nan_keys=False):
         self.rng, self.style, self.maxlen, self.budget = rng, style, maxlen, depth_budget
+        self.nan_keys = nan_keys        # float-keyed maps get ONE NaN key (an entry a Go map holds but cannot look up) - only where asked for
 
     def count(self):
         if self.style == "zero":
@@ -327,6 +328,10 @@ class ValueGen:
         if t[0] == "m":
             n = self.count() if depth < self.budget else 0
             keys, out = set(), []
+            if self.nan_keys and t[1] in ("float32", "float64"):
+                nan = zt((FLOAT32_SPECIAL if t[1] == "float32" else FLOAT64_SPECIAL)[r.choice([0, 3, 4])])
+                keys.add(nan)
+                out += [nan] + self.value(t[2], depth + 1)
             for _ in range(n):
                 k = self.prim(t[1], as_key=True)
                 if t[1] == "bool" and len(keys) >= 2:
@@ -552,3 +557,25 @@ def permute_maps(tree, mode):
     if tree[0] == "U":
         return ("U", tree[1], permute_maps(tree[2], mode))
     return tree
+
+
+def has_float_key(t):
+    """does the type (or anything inside it) contain a map keyed by a float"""
+    seen = set()
+    def go(t):
+        if t[0] == "m":
+            return t[1] in ("float32", "float64") or go(t[2])
+        if t[0] == "a":
+            return go(t[1])
+        if t[0] == "r":
+            d = t[1]
+            if id(d) in seen:
+                return False
+            seen.add(id(d))
+            if d.kind == "struct":
+                return any(go(ft) for _, ft in d.fields)
+            if d.kind == "message":
+                return any(go(ft) for _, _, ft, _ in d.fields)
+            return any(go(("r", bd)) for _, bd in d.fields)
+        return False
+    return go(t)
